@@ -1,7 +1,7 @@
 (* GENERATED on every run by tools/translate_imp.py from the current source in /repo. Do not edit. *)
 From Coq Require Import ZArith List Bool Arith.
 Import ListNotations.
-From CF Require Import PyDict.
+From CF Require Import PyDict TranslatedImpCFDivisor TranslatedImpCFGraph.
 Open Scope Z_scope.
 
 (* chipfiring/CFOrientation.py :: CFOrientation.set_orientation   reads ['self_orientation', 'self_graph_graph', 'self_out_degree', 'self_in_degree', 'self_is_full', 'self_is_full_checked'], writes ['self_out_degree', 'self_in_degree', 'self_orientation', 'self_is_full', 'self_is_full_checked'], may raise *)
@@ -156,3 +156,32 @@ Definition CFOrientation_is_sink (self_graph_graph : dictD) (self_orientation : 
   PyOk (None)
   else
   PyOk (Some (state =? 2)) end end end.
+
+(* chipfiring/CFOrientation.py :: CFOrientation.divisor   reads ['self_is_full_checked', 'self_is_full', 'self_graph_vertices', 'self_graph_graph', 'self_orientation', 'self_in_degree'], writes ['self_is_full', 'self_is_full_checked'], may raise *)
+Definition CFOrientation_divisor (self_is_full_checked : bool) (self_is_full : bool) (self_graph_vertices : list nat) (self_graph_graph : dictD) (self_orientation : dictD) (self_in_degree : dictZ) (set_order : list nat -> list nat) : pyres (bool * bool) ((dictZ * Z) * (bool * bool)) :=
+  match (if (negb self_is_full_checked) then
+  match CFOrientation_check_fullness self_is_full self_is_full_checked self_graph_vertices self_graph_graph self_orientation set_order with PyExn (self_is_full, self_is_full_checked) => PyExn (self_is_full, self_is_full_checked) | PyOk (_, (self_is_full, self_is_full_checked)) =>
+  PyOk (self_is_full, self_is_full_checked) end
+  else
+  PyOk (self_is_full, self_is_full_checked)) with PyExn e_ => PyExn e_ | PyOk (self_is_full, self_is_full_checked) =>
+  if (negb self_is_full) then
+  PyExn (self_is_full, self_is_full_checked)
+  else
+  let divisor_degrees := (@nil (nat * Z)) in
+  match fold_left (fun acc_ vertex => match acc_ with PyExn e_ => PyExn e_ | PyOk divisor_degrees => 
+  match d_find vertex self_in_degree with None => PyExn (self_is_full, self_is_full_checked) | Some t1_ =>
+  let degree := (t1_ - 1) in
+  let divisor_degrees := divisor_degrees ++ [(vertex, degree)] in
+  PyOk divisor_degrees end end) (set_order self_graph_vertices) (PyOk divisor_degrees) with PyExn e_ => PyExn e_ | PyOk divisor_degrees =>
+  match CFDivisor___init__ set_order self_graph_vertices self_graph_graph divisor_degrees with PyExn _ => PyExn (self_is_full, self_is_full_checked) | PyOk new_ => PyOk (new_, (self_is_full, self_is_full_checked)) end end end.
+
+(* chipfiring/CFOrientation.py :: CFOrientation.canonical_divisor   reads ['self_graph_vertices', 'self_graph_vertex_total_valence', 'self_graph_graph'], writes [], may raise *)
+Definition CFOrientation_canonical_divisor (self_graph_vertices : list nat) (self_graph_vertex_total_valence : dictZ) (self_graph_graph : dictD) (set_order : list nat -> list nat) : pyres (unit) (dictZ * Z) :=
+  let canonical_degrees := (@nil (nat * Z)) in
+  match fold_left (fun acc_ vertex => match acc_ with PyExn e_ => PyExn e_ | PyOk canonical_degrees => 
+  match CFGraph_get_valence self_graph_vertex_total_valence vertex with PyExn _ => PyExn tt | PyOk t1_ =>
+  let valence := t1_ in
+  let degree := (valence - 2) in
+  let canonical_degrees := canonical_degrees ++ [(vertex, degree)] in
+  PyOk canonical_degrees end end) (set_order self_graph_vertices) (PyOk canonical_degrees) with PyExn e_ => PyExn e_ | PyOk canonical_degrees =>
+  match CFDivisor___init__ set_order self_graph_vertices self_graph_graph canonical_degrees with PyExn _ => PyExn tt | PyOk new_ => PyOk (new_) end end.
